@@ -72,8 +72,8 @@ def _observe(L, K, ops, first):
     match = True
     for i, c in enumerate(L):
         m = c.measures
-        ext = canon(c.extent_i)
-        concepts.append({'extent': ext, 'intent': canon(c.intent_i), 'children': sorted(canon(L.children(i))),
+        ext = sorted(canon(c.extent_i))       # listings are sets: their order is not observable in the measures
+        concepts.append({'extent': ext, 'intent': sorted(canon(c.intent_i)), 'children': sorted(canon(L.children(i))),
                          'stab': _frac(m['Stab']), 'lstab': _frac(m['LStab']), 'ustab': _frac(m['UStab']),
                          'logd': _nat_or_inf(cms.log_stability_lbound(i, L, 1)),
                          'logm': _nat_or_inf(m['log_stability_lbound'], math.log2(n_bin))})
@@ -86,13 +86,16 @@ def _observe(L, K, ops, first):
         # arrays agree with the per-concept dicts
         for k in md:
             match = match and len(md[k]) > i and md[k][i] is not None and md[k][i] == m[k]
-    return {'concepts': concepts, 'keys': [KEY_IDS.get(k, 99) for k in md],
-            'lens': [int(len(v)) for v in md.values()], 'match': bool(match)}
+    # concepts read from JSON also carry 'Supp', 'Context_Hash', 'Monotone' in their measures dict: those
+    # arrays must be as long as the others; only the four stability keys are reported by name
+    match = match and all(len(v) == len(concepts) for v in md.values())
+    return {'concepts': concepts, 'keys': [KEY_IDS[k] for k in md if k in KEY_IDS],
+            'lens': [int(len(v)) for k, v in md.items() if k in KEY_IDS], 'match': bool(match)}
 
 
 def _find(L, ext):
     for c in L:
-        if list(c.extent_i) == list(ext):
+        if sorted(c.extent_i) == sorted(ext):
             return c
     raise KeyError('no concept with extent %r' % (ext,))
 
@@ -116,6 +119,33 @@ def run_impl(case):
                 cs = list(L)
                 random.Random(case['perm_seed']).shuffle(cs)
                 L = ConceptLattice(cs)
+            elif build == 'permuted':
+                # hand-made concepts whose extent / intent listings are permuted (same sets)
+                from fcapy.lattice.formal_concept import FormalConcept
+                r = random.Random(case['perm_seed'])
+                cs = []
+                for c in L:
+                    ei, ii = list(c.extent_i), list(c.intent_i)
+                    r.shuffle(ei)
+                    r.shuffle(ii)
+                    cs.append(FormalConcept(ei, [K.object_names[g] for g in ei], ii,
+                                            [K.attribute_names[m] for m in ii], context_hash=c.context_hash))
+                if r.random() < 0.5:
+                    r.shuffle(cs)
+                L = ConceptLattice(cs)
+            elif build == 'json_permuted':
+                # a lattice file (as a third party may write it) whose Inds / Names lists are permuted
+                import json as _json
+                r = random.Random(case['perm_seed'])
+                d = _json.loads(L.write_json(K.object_names, K.attribute_names))
+                for node in d[1]['Nodes']:
+                    for part in ('Ext', 'Int'):
+                        if isinstance(node[part], dict):
+                            perm = list(range(len(node[part]['Inds'])))
+                            r.shuffle(perm)
+                            node[part]['Inds'] = [node[part]['Inds'][k] for k in perm]
+                            node[part]['Names'] = [node[part]['Names'][k] for k in perm]
+                L = ConceptLattice.read_json(json_data=_json.dumps(d))
             elif build == 'remove_add':
                 removed = [_find(L, e) for e in case['pre_remove']]
                 for c in removed:
@@ -136,13 +166,16 @@ def run_impl(case):
                         L.remove(c)
                         removed.append(c)
                     complete = False
-                elif step[0] == 'add':
+                elif step[0] in ('add', 'add_nofill'):
                     for c in removed:
-                        L.add(c)
+                        if step[0] == 'add':
+                            L.add(c)
+                        else:
+                            L.add(c, fill_up_cache=False)
                     removed = []
                     complete = True
                 else:       # 'rebuild': a second lattice over the SAME concept objects, some left out
-                    L = ConceptLattice([c for c in L if list(c.extent_i) not in [list(e) for e in step[1]]])
+                    L = ConceptLattice([c for c in L if sorted(c.extent_i) not in [sorted(e) for e in step[1]]])
                     complete = not step[1]
                 snaps.append(dict(_observe(L, K, ops_list[k], False), complete=complete))
                 k += 1
@@ -246,15 +279,20 @@ def _mk(rng, t, kind, backend=None, algo=None, plain=False):
     if r < 0.25:
         c['build'] = 'shuffled'
         c['perm_seed'] = rng.randrange(10 ** 6)
-    elif r < 0.35:
+    elif r < 0.33:
         c['build'] = 'cbo_raw'
-    elif r < 0.5 and inner:
+    elif r < 0.45:
+        # write_json refuses lattices with fewer than 3 concepts
+        c['build'] = rng.choice(['permuted', 'json_permuted']) if len(exts) >= 3 else 'permuted'
+        c['perm_seed'] = rng.randrange(10 ** 6)
+    elif r < 0.58 and inner:
         c['build'] = 'remove_add'
         c['pre_remove'] = rng.sample(inner, rng.randint(1, min(2, len(inner))))
     r = rng.random()
     if inner and r < 0.3:
         # measures -> remove -> measures on the pruned lattice -> add back -> measures
-        c['history'] = [['remove', rng.sample(inner, rng.randint(1, min(2, len(inner))))], ['add']]
+        c['history'] = [['remove', rng.sample(inner, rng.randint(1, min(2, len(inner))))],
+                        [rng.choice(['add', 'add_nofill'])]]
         if rng.random() < 0.3:
             c['history'].append(['remove', [rng.choice(inner)]])
     elif inner and r < 0.4:
